@@ -173,7 +173,7 @@ Qed.
 (* the reference oracle satisfies the assumed contract (the contract is not vacuous) *)
 Lemma pyint0_ref_contract : pyint0_contract pyint0_ref.
 Proof.
-  split; intros ds NE H; unfold pyint0_ref; cbn; apply parse_radix_value; assumption.
+  split; intros c ds [->| ->] NE H; unfold pyint0_ref; cbn; apply parse_radix_value; assumption.
 Qed.
 
 Section Keys.
@@ -195,29 +195,29 @@ Section Keys.
       cbn [length nth_error]. cbn [forallb] in H.
       apply andb_prop in H as [_ H]. apply andb_prop in H as [H _].
       rewrite digit_ok2_is01 in H. rewrite H. apply orb_true_r. }
-    rewrite B. apply CB; assumption.
+    rewrite B. apply (CB "b"%char); auto.
   Qed.
 
-  (* "0b..." goes to int(s, 0) *)
-  Lemma key_0b s ds : key_chars s = "0"%char :: "b"%char :: ds -> ds <> [] ->
+  (* "0b..." / "0B..." go to int(s, 0) *)
+  Lemma key_0b s c ds : c = "b"%char \/ c = "B"%char -> key_chars s = "0"%char :: c :: ds -> ds <> [] ->
     forallb (digit_ok 2) ds = true ->
     outcome_to_int pyint0 (KStr s) = Some (radix_value 2 ds).
   Proof.
-    intros E NE H. unfold outcome_to_int. fold (key_chars s). rewrite E.
-    destruct contract as [CB _]. cbn [length nth_error]. 
-    replace (is01 "b"%char) with false by reflexivity.
+    intros Hc E NE H. unfold outcome_to_int. fold (key_chars s). rewrite E.
+    destruct contract as [CB _]. cbn [length nth_error].
+    replace (is01 c) with false by (destruct Hc as [->| ->]; reflexivity).
     replace (S (S (length ds)) <? 2) with false by (symmetry; apply Nat.ltb_ge; lia).
     cbn [orb]. apply CB; assumption.
   Qed.
 
-  (* "0x..." goes to int(s, 0) *)
-  Lemma key_0x s hs : key_chars s = "0"%char :: "x"%char :: hs -> hs <> [] ->
+  (* "0x..." / "0X..." go to int(s, 0) *)
+  Lemma key_0x s c hs : c = "x"%char \/ c = "X"%char -> key_chars s = "0"%char :: c :: hs -> hs <> [] ->
     forallb (digit_ok 16) hs = true ->
     outcome_to_int pyint0 (KStr s) = Some (radix_value 16 hs).
   Proof.
-    intros E NE H. unfold outcome_to_int. fold (key_chars s). rewrite E.
+    intros Hc E NE H. unfold outcome_to_int. fold (key_chars s). rewrite E.
     destruct contract as [_ CX]. cbn [length nth_error].
-    replace (is01 "x"%char) with false by reflexivity.
+    replace (is01 c) with false by (destruct Hc as [->| ->]; reflexivity).
     replace (S (S (length hs)) <? 2) with false by (symmetry; apply Nat.ltb_ge; lia).
     cbn [orb]. apply CX; assumption.
   Qed.
@@ -830,10 +830,225 @@ Lemma keys_full pyint0 : pyint0_contract pyint0 ->
   (forall n, outcome_to_int pyint0 (KInt n) = Some n) /\
   (forall s, key_chars s <> [] -> forallb (digit_ok 2) (key_chars s) = true ->
      outcome_to_int pyint0 (KStr s) = Some (radix_value 2 (key_chars s))) /\
-  (forall s ds, key_chars s = "0"%char :: "b"%char :: ds -> ds <> [] -> forallb (digit_ok 2) ds = true ->
-     outcome_to_int pyint0 (KStr s) = Some (radix_value 2 ds)) /\
-  (forall s hs, key_chars s = "0"%char :: "x"%char :: hs -> hs <> [] -> forallb (digit_ok 16) hs = true ->
-     outcome_to_int pyint0 (KStr s) = Some (radix_value 16 hs)).
+  (forall s c ds, c = "b"%char \/ c = "B"%char -> key_chars s = "0"%char :: c :: ds -> ds <> [] ->
+     forallb (digit_ok 2) ds = true -> outcome_to_int pyint0 (KStr s) = Some (radix_value 2 ds)) /\
+  (forall s c hs, c = "x"%char \/ c = "X"%char -> key_chars s = "0"%char :: c :: hs -> hs <> [] ->
+     forallb (digit_ok 16) hs = true -> outcome_to_int pyint0 (KStr s) = Some (radix_value 16 hs)).
 Proof.
   intros C. split; [reflexivity|]. split; [apply key_binary, C|]. split; [apply key_0b, C|apply key_0x, C].
 Qed.
+
+(* ------------------------------------------------------------------------------------------ *)
+(* G. masks and lookup from Pauli letters                                                      *)
+(* ------------------------------------------------------------------------------------------ *)
+
+Lemma pauli_indices_from_spec g : forall i,
+  pauli_indices_from i g = filter (fun q => acts_on g (q - i)) (seq i (length g)).
+Proof.
+  induction g as [|l r IH]; intros i; [reflexivity|].
+  cbn [pauli_indices_from length seq filter]. rewrite Nat.sub_diag. unfold acts_on at 1. cbn [nth].
+  rewrite (IH (S i)).
+  assert (E : filter (fun q => acts_on r (q - S i)) (seq (S i) (length r))
+            = filter (fun q => acts_on (l :: r) (q - i)) (seq (S i) (length r))).
+  { apply filter_ext_in. intros q Hq. apply in_seq in Hq. unfold acts_on.
+    replace (q - i) with (S (q - S i)) by lia. reflexivity. }
+  rewrite E. destruct (l =? 0); reflexivity.
+Qed.
+
+(* the measured qubits are exactly the qubits on which the general observable acts, ascending *)
+Lemma pauli_indices_of_spec g :
+  pauli_indices_of g = filter (acts_on g) (seq 0 (length g)).
+Proof.
+  unfold pauli_indices_of. rewrite pauli_indices_from_spec. apply filter_ext. intros q.
+  rewrite Nat.sub_0_r. reflexivity.
+Qed.
+
+Lemma bit_shiftl1 i j : bit (N.shiftl 1 (N.of_nat i)) j = (j =? i).
+Proof.
+  unfold bit. rewrite N.shiftl_1_l, N.pow2_bits_eqb.
+  destruct (Nat.eqb_spec j i) as [->|NE]; [apply N.eqb_refl|]. apply N.eqb_neq. lia.
+Qed.
+
+Lemma bitmask_from_bit member : forall idx i v j,
+  bit (bitmask_from i idx member v) j
+  = bit v j || ((i <=? j) && (j - i <? length idx) && acts_on member (nth (j - i) idx 0)).
+Proof.
+  induction idx as [|q r IH]; intros i v j.
+  - cbn [bitmask_from length]. rewrite Nat.ltb_irrefl || idtac.
+    replace (j - i <? 0) with false by (symmetry; apply Nat.ltb_ge; lia).
+    rewrite andb_false_r. cbn [andb]. rewrite orb_false_r. reflexivity.
+  - cbn [bitmask_from]. rewrite IH. cbn [length].
+    assert (V : bit (if nth q member 0 =? 0 then v else N.lor v (N.shiftl 1 (N.of_nat i))) j
+                = bit v j || (acts_on member q && (j =? i))).
+    { unfold acts_on. destruct (nth q member 0 =? 0); cbn [negb andb].
+      - rewrite orb_false_r. reflexivity.
+      - unfold bit at 1. rewrite N.lor_spec. fold (bit v j). fold (bit (N.shiftl 1 (N.of_nat i)) j).
+        rewrite bit_shiftl1. reflexivity. }
+    rewrite V. clear V.
+    destruct (Nat.eqb_spec j i) as [->|NE].
+    + rewrite Nat.sub_diag. cbn [nth].
+      replace (S i <=? i) with false by (symmetry; apply Nat.leb_gt; lia).
+      rewrite Nat.leb_refl. cbn [andb]. rewrite andb_true_r, orb_false_r. reflexivity.
+    + rewrite andb_false_r, orb_false_r.
+      destruct (Nat.leb_spec (S i) j) as [L|G].
+      * replace (i <=? j) with true by (symmetry; apply Nat.leb_le; lia).
+        replace (j - i) with (S (j - S i)) by lia. cbn [nth andb].
+        replace (S (j - S i) <? S (length r)) with (j - S i <? length r); [reflexivity|].
+        destruct (Nat.ltb_spec (j - S i) (length r)), (Nat.ltb_spec (S (j - S i)) (S (length r))); try reflexivity; lia.
+      * cbn [andb]. replace (i <=? j) with false by (symmetry; apply Nat.leb_gt; lia). reflexivity.
+Qed.
+
+(* bit j of the mask is set iff j indexes a measured qubit on which the observable acts *)
+Lemma bitmask_of_bit idx member j :
+  bit (bitmask_of idx member) j = (j <? length idx) && acts_on member (nth j idx 0).
+Proof.
+  unfold bitmask_of. rewrite bitmask_from_bit. unfold bit at 1. rewrite N.bits_0.
+  cbn [orb Nat.leb andb]. rewrite Nat.sub_0_r. reflexivity.
+Qed.
+
+Lemma lookup_in_group_spec p m : forall members n0 a b,
+  In (a, b) (lookup_in_group m n0 members p) <->
+  a = m /\ n0 <= b /\ exists x, nth_error members (b - n0) = Some x /\ letters_eqb x p = true.
+Proof.
+  induction members as [|x r IH]; intros n0 a b; cbn [lookup_in_group].
+  - split; [intros []|]. intros [_ [_ [y [H _]]]]. destruct (b - n0); discriminate.
+  - assert (R : In (a, b) (lookup_in_group m (S n0) r p) <->
+              a = m /\ S n0 <= b /\ exists y, nth_error (x :: r) (b - n0) = Some y /\ letters_eqb y p = true).
+    { rewrite IH. split; intros [A [B [y [C D]]]]; (split; [exact A|]); (split; [exact B|]); exists y; (split; [|exact D]).
+      - replace (b - n0) with (S (b - S n0)) by lia. exact C.
+      - replace (b - n0) with (S (b - S n0)) in C by lia. exact C. }
+    destruct (letters_eqb x p) eqn:E.
+    + cbn [In]. rewrite R. split.
+      * intros [H|[A [B C]]].
+        -- inversion H; subst. split; [reflexivity|]. split; [lia|]. exists x. rewrite Nat.sub_diag. split; [reflexivity|exact E].
+        -- split; [exact A|]. split; [lia|exact C].
+      * intros [A [B [y [C D]]]]. destruct (Nat.eq_dec b n0) as [->|NE]; [left; subst; reflexivity|].
+        right. split; [exact A|]. split; [lia|]. exists y. split; assumption.
+    + rewrite R. split.
+      * intros [A [B C]]. split; [exact A|]. split; [lia|exact C].
+      * intros [A [B [y [C D]]]]. destruct (Nat.eq_dec b n0) as [->|NE].
+        -- rewrite Nat.sub_diag in C. cbn in C. inversion C; subst. congruence.
+        -- split; [exact A|]. split; [lia|]. exists y. split; assumption.
+Qed.
+
+Lemma lookup_from_spec p : forall groups m0 a b,
+  In (a, b) (lookup_from m0 groups p) <->
+  m0 <= a /\ exists g x, nth_error groups (a - m0) = Some g /\ nth_error (snd g) b = Some x /\ letters_eqb x p = true.
+Proof.
+  induction groups as [|g r IH]; intros m0 a b; cbn [lookup_from].
+  - split; [intros []|]. intros [_ [g [x [H _]]]]. destruct (a - m0); discriminate.
+  - rewrite in_app_iff, lookup_in_group_spec, IH. split.
+    + intros [[A [_ [x [C D]]]]|[A [g' [x [B [C D]]]]]].
+      * subst a. split; [lia|]. exists g, x. rewrite Nat.sub_diag, Nat.sub_0_r in *. repeat split; assumption.
+      * split; [lia|]. exists g', x. replace (a - m0) with (S (a - S m0)) by lia. repeat split; assumption.
+    + intros [A [g' [x [B [C D]]]]]. destruct (Nat.eq_dec a m0) as [->|NE].
+      * left. rewrite Nat.sub_diag in B. cbn in B. inversion B; subst g'.
+        split; [reflexivity|]. split; [lia|]. exists x. rewrite Nat.sub_0_r. split; assumption.
+      * right. split; [lia|]. exists g', x. replace (a - m0) with (S (a - S m0)) in B by lia.
+        repeat split; assumption.
+Qed.
+
+(* the lookup of P lists exactly the (group, member) positions that hold P *)
+Lemma lookup_of_spec groups p a b :
+  In (a, b) (lookup_of groups p) <->
+  exists g x, nth_error groups a = Some g /\ nth_error (snd g) b = Some x /\ letters_eqb x p = true.
+Proof.
+  unfold lookup_of. rewrite lookup_from_spec, Nat.sub_0_r. split; [intros [_ H]; exact H|]. intros H. split; [lia|exact H].
+Qed.
+
+(* partitions built from letters satisfy the shape hypotheses of the estimator theorem *)
+Lemma part_of_letters_ok label phases groups subobs :
+  length (plookup (part_of_letters label phases groups subobs)) = length subobs /\
+  locs_ok (part_of_letters label phases groups subobs).
+Proof.
+  split; [apply map_length|].
+  intros locs m n HL HM. cbn [part_of_letters plookup pgroups] in *.
+  apply in_map_iff in HL as [p [<- _]]. apply lookup_of_spec in HM as [g [x [G [X _]]]].
+  assert (Lm : m < length groups) by (apply nth_error_Some; congruence).
+  split; [rewrite map_length; exact Lm|].
+  rewrite (nth_map_lt cog_of_letters groups m (([], []) : lgroup)) by exact Lm.
+  rewrite (nth_error_nth groups m _ G). unfold cog_of_letters, cog_masks. cbn [snd].
+  rewrite map_length. apply nth_error_Some. congruence.
+Qed.
+
+(* ------------------------------------------------------------------------------------------ *)
+(* H. totality: the loops never crash, and refuse only for a count mismatch or a bad key       *)
+(* ------------------------------------------------------------------------------------------ *)
+Section Total.
+  Variable pyint0 : list ascii -> option N.
+
+  Definition bad_key (d : pdata) : Prop := exists k, In k (keys_of d) /\ outcome_to_int pyint0 k = None.
+  Definition ok_or_badkey {A} (r : res A) (d : pdata) : Prop :=
+    (exists v, r = Ok v) \/ (r = Refused /\ bad_key d).
+
+  Lemma exp_v1_total c : forall qd acc,
+    (exists v, exp_v1 pyint0 c qd acc = Ok v) \/
+    (exp_v1 pyint0 c qd acc = Refused /\ exists kp, In kp qd /\ outcome_to_int pyint0 (fst kp) = None).
+  Proof.
+    induction qd as [|[k p] r IH]; intros acc; [left; eexists; reflexivity|].
+    cbn [exp_v1]. unfold process_outcome. destruct (outcome_to_int pyint0 k) eqn:E.
+    - destruct (IH (vadd acc (vscale p (zvec (process_outcome_v2 (cog_masks c)
+                  (N.land n (N.ones (N.of_nat (num_meas_bits c)))) (N.shiftr n (N.of_nat (num_meas_bits c))))))))
+        as [H|[H [kp [I B]]]]; [left; exact H|].
+      right. split; [exact H|]. exists kp. split; [right; exact I|exact B].
+    - right. split; [reflexivity|]. exists (k, p). split; [left; reflexivity|exact E].
+  Qed.
+
+  Lemma experiment_total d idx c : ok_or_badkey (experiment pyint0 d idx c) d.
+  Proof.
+    destruct d as [qds|pubs]; cbn [experiment]; [|left; eexists; reflexivity].
+    destruct (exp_v1_total c (nth idx qds []) (zeros (length (cog_masks c)))) as [H|[H [kp [I B]]]]; [left; exact H|].
+    right. split; [exact H|]. exists (fst kp). split; [|exact B]. cbn [keys_of]. apply in_map, in_concat.
+    exists (nth idx qds []). split; [|exact I].
+    destruct (Nat.lt_ge_cases idx (length qds)) as [L|G]; [apply nth_In, L|].
+    rewrite nth_overflow in I by exact G. destruct I.
+  Qed.
+
+  Lemma mapM_total {X Y} (f : X -> res Y) d l :
+    (forall x, ok_or_badkey (f x) d) -> ok_or_badkey (mapM f l) d.
+  Proof.
+    intros H. induction l as [|x r IH]; [left; eexists; reflexivity|]. cbn [mapM].
+    destruct (H x) as [[y ->]|[-> B]]; [|right; split; [reflexivity|exact B]].
+    destruct IH as [[ys ->]|[-> B]]; [left; eexists; reflexivity|right; split; [reflexivity|exact B]].
+  Qed.
+
+  Lemma part_factors_total i p d : ok_or_badkey (part_factors pyint0 i p d) d.
+  Proof.
+    unfold part_factors, subsystem_expvals.
+    destruct (mapM_total (fun kc => experiment pyint0 d (i * length (pgroups p) + fst kc) (snd kc)) d
+                (enumerate (pgroups p)) (fun kc => experiment_total d _ _)) as [[v ->]|[-> B]];
+      [left; eexists; reflexivity|right; split; [reflexivity|exact B]].
+  Qed.
+
+  Definition ok_or_somebad {A} (r : res A) (pds : list (part * pdata)) : Prop :=
+    (exists v, r = Ok v) \/ (r = Refused /\ exists pd, In pd pds /\ bad_key (snd pd)).
+
+  Lemma term_loop_total i : forall pds cur, ok_or_somebad (term_loop pyint0 i pds cur) pds.
+  Proof.
+    induction pds as [|[p d] r IH]; intros cur; [left; eexists; reflexivity|]. cbn [term_loop].
+    destruct (part_factors_total i p d) as [[f ->]|[-> B]].
+    - destruct (IH (vmul cur f)) as [H|[H [pd [I B]]]]; [left; exact H|].
+      right. split; [exact H|]. exists pd. split; [right; exact I|exact B].
+    - right. split; [reflexivity|]. exists (p, d). split; [left; reflexivity|exact B].
+  Qed.
+
+  Lemma coeff_loop_total pds : forall cs i expvals, ok_or_somebad (coeff_loop pyint0 i cs pds expvals) pds.
+  Proof.
+    induction cs as [|c r IH]; intros i expvals; [left; eexists; reflexivity|]. cbn [coeff_loop].
+    destruct (term_loop_total i pds (ones (length expvals))) as [[cur ->]|[-> B]]; [apply IH|].
+    right. split; [reflexivity|exact B].
+  Qed.
+
+  Lemma reconstruct_parts_total nobs coeffs pds :
+    (exists v, reconstruct_parts pyint0 nobs coeffs pds = Ok v) \/
+    (reconstruct_parts pyint0 nobs coeffs pds = Refused /\
+       ((exists pd, In pd pds /\ data_len (snd pd) <> length coeffs * length (pgroups (fst pd))) \/
+        (exists pd k, In pd pds /\ In k (keys_of (snd pd)) /\ outcome_to_int pyint0 k = None))).
+  Proof.
+    unfold reconstruct_parts. destruct (existsb (count_bad (length coeffs)) pds) eqn:E.
+    - right. split; [reflexivity|]. left. apply existsb_exists in E as [pd [I B]]. exists pd. split; [exact I|].
+      unfold count_bad in B. apply negb_true_iff, Nat.eqb_neq in B. exact B.
+    - destruct (coeff_loop_total pds coeffs 0 (zeros nobs)) as [H|[H [pd [I [k [K1 K2]]]]]]; [left; exact H|].
+      right. split; [exact H|]. right. exists pd, k. repeat split; assumption.
+  Qed.
+End Total.
